@@ -576,3 +576,53 @@ Proof.
     apply gf_last. apply ut_elem. eapply gblock_name; reflexivity.
   - apply gf_last. apply ut_elem. eapply gblock_name; reflexivity.
 Qed.
+
+(* ---------------------------------------------------------------- block instance: name*N *)
+Lemma quiet_elem_body (s : est) (t' : token) (r : list token) :
+  (op_tok OpChild t' \/ op_tok OpSibling t' \/ op_tok OpClimb t' \/ gclose_tok t') ->
+  est_empty s = false ->
+  elem_body false s (t' :: r) = EBreak s 0.
+Proof.
+  intros Hb Hne. unfold op_tok, gclose_tok in Hb. unfold elem_body.
+  assert (Hrep : rep_of t' = None) by (unfold rep_of; destruct Hb as [H|[H|[H|H]]]; rewrite H; reflexivity).
+  rewrite Hrep.
+  assert (Htx : text (t' :: r) = 0).
+  { unfold text, is_bracket. destruct Hb as [H|[H|[H|H]]]; rewrite H; reflexivity. }
+  assert (Hid : short_attribute false OpId (t' :: r) = None).
+  { unfold short_attribute. cbn [span_tok]. unfold is_operator. destruct Hb as [H|[H|[H|H]]]; rewrite H; reflexivity. }
+  assert (Hcl : short_attribute false OpClass (t' :: r) = None).
+  { unfold short_attribute. cbn [span_tok]. unfold is_operator. destruct Hb as [H|[H|[H|H]]]; rewrite H; reflexivity. }
+  assert (Has : attribute_set (t' :: r) = ASNone).
+  { unfold attribute_set, is_bracket. destruct Hb as [H|[H|[H|H]]]; rewrite H; reflexivity. }
+  assert (Hclose : is_operator t' (Some OpClose) = false).
+  { unfold is_operator. destruct Hb as [H|[H|[H|H]]]; rewrite H; reflexivity. }
+  rewrite Hne. cbn [negb].
+  destruct (e_repeat s); destruct (e_value s); rewrite ?Htx, Hid, Hcl, Has, Hclose; reflexivity.
+Qed.
+
+(* an element written as a bare name followed by a repeater `*N` *)
+Lemma gblock_name_rep (t tr : token) (v : str) (rp : rep) :
+  tk t = TLiteral v -> rep_of tr = Some rp ->
+  gblock_ok false [t; tr] (mkLeaf (Some [t]) None None (Some rp) false).
+Proof.
+  intros Ht Hr. split; [discriminate|]. split.
+  - cbn [hd_is]. unfold is_climb_op, is_operator. rewrite Ht. reflexivity.
+  - intros rest Hb.
+    assert (Hktr : exists c vl i, tk tr = TRepeater c vl i).
+    { unfold rep_of in Hr. destruct (tk tr); try discriminate. eauto. }
+    destruct Hktr as [c [vl [i Hktr]]].
+    unfold element, element_name. cbn [andb app hd_is tl skipn Nat.add].
+    assert (Hn : is_element_name_tok t = true) by (unfold is_element_name_tok; rewrite Ht; reflexivity).
+    assert (Hn' : is_element_name_tok tr = false) by (unfold is_element_name_tok; rewrite Hktr; reflexivity).
+    cbn [span_tok]. rewrite Hn, Hn'. cbn [firstn elem_loop].
+    assert (Hbody : elem_body false (mkEst (Some [t]) None None None false) (tr :: rest)
+                    = ECont (mkEst (Some [t]) None None (Some rp) false) 1).
+    { unfold elem_body. cbn [e_repeat est_empty e_name e_value e_attrs negb]. rewrite Hr. reflexivity. }
+    rewrite Hbody. cbn [pred].
+    destruct rest as [|t' r].
+    + cbn [elem_loop est_empty e_name leaf_node lf_name lf_attrs lf_value lf_repeat lf_self e_attrs e_value e_repeat e_self length].
+      reflexivity.
+    + cbn [elem_loop]. rewrite quiet_elem_body; [|exact Hb|reflexivity].
+      cbn [est_empty e_name leaf_node lf_name lf_attrs lf_value lf_repeat lf_self e_attrs e_value e_repeat e_self length].
+      reflexivity.
+Qed.
